@@ -220,10 +220,15 @@ func Performance(dpv *journal.Performance) float64 {
 
 func Perf(j *journal.Builder, part date.Partition) *journal.Processor {
 	ds := set.FromSlice(j.Days(part.EndDates()))
+	starts := part.StartDates()
 	running := 1.0
 	return &journal.Processor{
 		DayEnd: func(d *journal.Day) error {
 			if !part.Contains(d.Date) {
+				return nil
+			}
+			if len(starts) > 0 && d.Date.Before(starts[0]) {
+				// before the first reported period (--last)
 				return nil
 			}
 			running *= Performance(d.Performance)
